@@ -206,6 +206,14 @@ func buildAndVerify(vc vcase) VObs {
 		sv.VerifyTimestamp = trustpolicy.TimestampOption(fx.verifyTimestamp)
 	}
 	stores, ids := fx.trustStores, fx.identities
+	if fx.injectIdentities {
+		if !docAliased() {
+			// this library version copies the document at construction: an unvalidated list cannot reach the verifier at all
+			obs.Verdict = "n/a"
+			return obs
+		}
+		ids = []string{"x509.subject: C=ZZ, ST=ZZ, O=verif-placeholder"}
+	}
 	if in.Skip {
 		sv = trustpolicy.SignatureVerification{VerificationLevel: "skip"}
 		stores, ids = nil, nil
@@ -297,6 +305,10 @@ func buildAndVerify(vc vcase) VObs {
 	if err != nil {
 		// the concretisation is wrong (policy rejected): harness problem, not a verdict
 		panic(fmt.Sprintf("verifier construction failed (identities %q stores %q): %v", fx.identities, fx.trustStores, err))
+	}
+
+	if fx.injectIdentities && ociDoc != nil {
+		ociDoc.TrustPolicies[0].TrustedIdentities = fx.identities
 	}
 
 	// ----- call -----------------------------------------------------------
@@ -409,24 +421,25 @@ func classifyRevocation(err error, ch *Chain) (string, int) {
 // ---- fixture -----------------------------------------------------------------
 
 type vfixture struct {
-	in              VIn
-	scheme          signature.SigningScheme
-	chain           *Chain
-	chainKey        string
-	signingTime     int
-	expiry          int // 0 = none
-	store           *mockTrustStore
-	trustStores     []string
-	identities      []string
-	verifyTimestamp string
-	rev             *mockRevocation
-	tsaRev          *mockRevocation
-	revIface        string
-	manager         *mockManager
-	plugin          *mockPlugin
-	extAttrs        []signature.Attribute
-	tsToken         func(sig []byte) []byte // optional countersignature factory
-	hashAlg         digest.Algorithm
+	in               VIn
+	scheme           signature.SigningScheme
+	chain            *Chain
+	chainKey         string
+	signingTime      int
+	expiry           int // 0 = none
+	store            *mockTrustStore
+	trustStores      []string
+	identities       []string
+	injectIdentities bool // the identity list cannot pass validation: it is written into the document after construction
+	verifyTimestamp  string
+	rev              *mockRevocation
+	tsaRev           *mockRevocation
+	revIface         string
+	manager          *mockManager
+	plugin           *mockPlugin
+	extAttrs         []signature.Attribute
+	tsToken          func(sig []byte) []byte // optional countersignature factory
+	hashAlg          digest.Algorithm
 }
 
 // number of cases per run whose expiry is realised as "just expired" (each waits about a second)
@@ -728,4 +741,30 @@ func (fx *vfixture) envelope(vc vcase) []byte {
 		}
 	}
 	return env
+}
+
+// docAliased probes (once) whether a verifier sees changes made to its policy document after construction: a verifier built
+// with an identity nobody matches, the document then changed to the wildcard, a valid signature verified.
+var docAliasedOnce sync.Once
+var docAliasedVal bool
+
+func docAliased() bool {
+	docAliasedOnce.Do(func() {
+		ch := epChain()
+		st := newMockTrustStore()
+		st.put(truststore.TypeCA, "s1", ch.Root())
+		doc := &trustpolicy.OCIDocument{Version: "1.0", TrustPolicies: []trustpolicy.OCITrustPolicy{{Name: "p", RegistryScopes: []string{"*"},
+			SignatureVerification: trustpolicy.SignatureVerification{VerificationLevel: "strict"}, TrustStores: []string{"ca:s1"},
+			TrustedIdentities: []string{"x509.subject: C=ZZ, ST=ZZ, O=verif-placeholder"}}}}
+		v, err := verifier.NewVerifierWithOptions(st, verifier.VerifierOptions{OCITrustPolicy: doc, RevocationCodeSigningValidator: ctxValidator{&mockRevocation{}},
+			RevocationTimestampingValidator: ctxValidator{&mockRevocation{}}})
+		must(err)
+		doc.TrustPolicies[0].TrustedIdentities = []string{"*"}
+		d := ocispec.Descriptor{MediaType: mtA, Digest: digestOf(digest.SHA256, blobA), Size: int64(len(blobA))}
+		payload, _ := json.Marshal(map[string]interface{}{"targetArtifact": d})
+		env := SignEnvelope(EnvSpec{Format: "jws", Chain: ch, Payload: payload})
+		_, verr := v.Verify(context.Background(), d, env, notation.VerifierVerifyOptions{ArtifactReference: artifactRef(), SignatureMediaType: mtJWS})
+		docAliasedVal = verr == nil
+	})
+	return docAliasedVal
 }
